@@ -116,6 +116,8 @@ func checkC05Write(c c05WriteCase) string {
 	if c.Foreign && c.Meta == "stl" {
 		// (lists without metadata, or with inherited metadata, stay as they are: they are cases of their own)
 		addForeignMetadata("stl", s)
+		addForeignAttributes("stl", s)
+		priorFailedWrite("stl", 1024+len(s.Items)*37, len(s.Items)%3)
 	}
 	restore := astisub.Now
 	astisub.Now = func() time.Time { return time.Date(2021, 3, 4, 0, 0, 0, 0, time.UTC) }
